@@ -6,6 +6,7 @@ import (
 	"context"
 	"crypto/x509"
 	"os"
+	"strings"
 	"syscall"
 
 	"github.com/caddyserver/caddy/v2"
@@ -16,6 +17,13 @@ import (
 // QuietStderr redirects file descriptor 2 to the given file (the validator logs through a
 // zap development logger bound to stderr). Returns the path.
 func QuietStderr(path string) {
+	// worker processes get a file of their own (shard 3 of 8: <path>.shard3), so that a crash trace
+	// of one worker can be found and attributed by the parent
+	if sh := os.Getenv("VERIF_SHARD"); sh != "" {
+		if i := strings.Index(sh, "/"); i > 0 {
+			path += ".shard" + sh[:i]
+		}
+	}
 	f, err := os.OpenFile(path, os.O_CREATE|os.O_WRONLY|os.O_APPEND, 0644)
 	if err != nil {
 		return
